@@ -269,6 +269,10 @@ def verify(spec: FuncSpec, cfg: dict, tier="quick", exclude=()) -> RunResult:
                 r, _ = ctx._check()
                 res.cover = (r == z3.sat)
                 if r == z3.unsat:
+                    if exclude:
+                        # re-check outside a known-finding class: this path lies inside the class
+                        res.cover = None
+                        raise PathInfeasible()
                     res.errors.append("vacuous precondition: requires is unsatisfiable")
                     break
             try:
@@ -283,7 +287,10 @@ def verify(spec: FuncSpec, cfg: dict, tier="quick", exclude=()) -> RunResult:
                 for name, term in spec.canaries(c, args, kwargs, outcome[1]) or []:
                     t = tb(term)
                     r, _ = ctx._check(z3.Not(t))
-                    canary_seen[name] = canary_seen.get(name, False) or (r == z3.sat)
+                    # refuted (sat) on some path: the wrong clause is visible.  A solver `unknown` is inconclusive, not a
+                    # proof of the wrong clause: only `unsat` on every path counts as "not refuted".
+                    prev = canary_seen.get(name, False)
+                    canary_seen[name] = True if (prev is True or r == z3.sat) else (None if (prev is None or r != z3.unsat) else False)
             else:
                 e = outcome[1]
                 key = f"raise:{e.tname}"
